@@ -67,14 +67,18 @@ def sh(cmd, cwd=None, timeout=None, env=None):
 
 
 class Lock:
-    def __init__(self, name):
+    """file lock shared by all processes working in /verif (exclusive for builds, shared for
+    readers of the compiled .vo files)"""
+
+    def __init__(self, name, shared=False):
         d = os.path.join(ROOT, "out")
         os.makedirs(d, exist_ok=True)
         self.path = os.path.join(d, name + ".lock")
+        self.shared = shared
 
     def __enter__(self):
-        self.f = open(self.path, "w")
-        fcntl.flock(self.f, fcntl.LOCK_EX)
+        self.f = open(self.path, "a")
+        fcntl.flock(self.f, fcntl.LOCK_SH if self.shared else fcntl.LOCK_EX)
 
     def __exit__(self, *a):
         fcntl.flock(self.f, fcntl.LOCK_UN)
@@ -218,7 +222,8 @@ def print_assumptions(module, theorems, workdir):
         f.write("Require Import %s.\n" % module)
         for t in theorems:
             f.write('Goal True. idtac "@@BEGIN %s". Abort.\nPrint Assumptions %s.\nGoal True. idtac "@@END". Abort.\n' % (t, t))
-    rc, out = sh(["coqc", "-noglob", "-Q", os.path.join(COQ, "theories"), "NDB", path], cwd=workdir, timeout=600)
+    with Lock("coq", shared=True):
+        rc, out = sh(["coqc", "-noglob", "-Q", os.path.join(COQ, "theories"), "NDB", path], cwd=workdir, timeout=600)
     res = {}
     if rc != 0:
         return None, out
@@ -247,7 +252,8 @@ def statement_of(module, theorems, workdir):
         f.write("Require Import %s.\n" % module)
         for t in theorems:
             f.write('Goal True. idtac "@@BEGIN %s". Abort.\nPrint %s.\nGoal True. idtac "@@END". Abort.\n' % (t, t))
-    rc, out = sh(["coqc", "-noglob", "-Q", os.path.join(COQ, "theories"), "NDB", path], cwd=workdir, timeout=600)
+    with Lock("coq", shared=True):
+        rc, out = sh(["coqc", "-noglob", "-Q", os.path.join(COQ, "theories"), "NDB", path], cwd=workdir, timeout=600)
     res, cur = {}, None
     for line in out.splitlines():
         m = re.match(r"@@BEGIN (\S+)", line)
@@ -270,8 +276,14 @@ def run_case_files(files, jobs=16, timeout=1800):
                      cwd=os.path.dirname(f), timeout=timeout)
         return f, rc, out
 
-    with concurrent.futures.ThreadPoolExecutor(max_workers=jobs) as ex:
-        for f, rc, out in ex.map(one, files):
+    lock = Lock("coq", shared=True)
+    lock.__enter__()
+    try:
+        results = list(concurrent.futures.ThreadPoolExecutor(max_workers=jobs).map(one, files))
+    finally:
+        lock.__exit__()
+    if True:
+        for f, rc, out in results:
             if rc != 0:
                 errors.append("%s: %s" % (f, out[-2000:]))
                 continue
@@ -297,7 +309,8 @@ def run_case_files(files, jobs=16, timeout=1800):
 
 
 def coqchk(module, timeout=3000):
-    rc, out = sh(["coqchk", "-o", "-silent", "-Q", os.path.join(COQ, "theories"), "NDB", module], cwd=COQ, timeout=timeout)
+    with Lock("coq", shared=True):
+        rc, out = sh(["coqchk", "-o", "-silent", "-Q", os.path.join(COQ, "theories"), "NDB", module], cwd=COQ, timeout=timeout)
     return rc, out
 
 
@@ -363,7 +376,13 @@ def harness_build(bin_name, pkg=None, timeout=2400):
 def harness_run(bin_name, args, timeout=3000):
     exe = os.path.join(harness_target_dir(), "debug", bin_name)
     t0 = time.time()
-    rc, out = sh([exe] + [str(a) for a in args], cwd=HARNESS, timeout=timeout)
+    env = dict(ENV)
+    # scratch databases on a memory file system when there is one: the engine fsyncs a lot
+    if "VERIF_TMPDIR" in os.environ:
+        env["TMPDIR"] = os.environ["VERIF_TMPDIR"]
+    elif os.path.isdir("/dev/shm") and os.access("/dev/shm", os.W_OK):
+        env["TMPDIR"] = "/dev/shm"
+    rc, out = sh([exe] + [str(a) for a in args], cwd=HARNESS, timeout=timeout, env=env)
     return rc, out, time.time() - t0
 
 
